@@ -1,12 +1,321 @@
-// Package c05: correspondence harness of C05 (stub: replaced when C05 is built).
+// Package c05: derived DeepCopy / Clone vs the model of plugin/deepcopy + plugin/clone
+// (coq/theories/Copy/Model.v): equal, fully independent copy for every prior destination.
 package c05
 
 import (
+	_ "embed"
 	"fmt"
+	"os"
+	"path/filepath"
+	"strings"
+	"sync/atomic"
 
+	"verifharness/internal/ga"
 	"verifharness/internal/hx"
 )
 
+//go:embed drv_c05.go.txt
+var driverSource string
+
+// refKind: "sl", "m" when the type (through a name) is a slice or map, else "".  (The direct form for a
+// pointer type *T is the pointer form of T; asking for both in one package is a name conflict.)
+func refKind(t *ga.Type) string {
+	u := t
+	if t.K == ga.KNamed {
+		u = t.Elem
+	}
+	switch u.K {
+	case ga.KSlice:
+		return "sl"
+	case ga.KMap:
+		return "m"
+	}
+	return ""
+}
+
+// zeroSize: types without data (struct{}, [0]T, arrays and structs of those): for these the emitted
+// statements may never touch a nil argument; the nil cases are not part of the model.
+func zeroSize(t *ga.Type) bool {
+	switch t.K {
+	case ga.KNamed:
+		return zeroSize(t.Elem)
+	case ga.KArray:
+		return t.N == 0 || zeroSize(t.Elem)
+	case ga.KStruct:
+		for _, f := range t.Fields {
+			if !zeroSize(f.T) {
+				return false
+			}
+		}
+		return true
+	}
+	return false
+}
+
+// emptyArray: [0]T, [n][0]T, ...: copying such an element executes no statement, so a destination
+// slice that is too short is never indexed (outside the property and outside the model).
+func emptyArray(t *ga.Type) bool {
+	switch t.K {
+	case ga.KNamed:
+		return emptyArray(t.Elem)
+	case ga.KArray:
+		return t.N == 0 || emptyArray(t.Elem)
+	}
+	return false
+}
+
+func isRefGo(tgo string) bool {
+	return strings.HasPrefix(tgo, "[]") || strings.HasPrefix(tgo, "map[") || tgo == "NSl" || tgo == "NMap"
+}
+
+var (
+	// deriveDeepCopy(dst, src *T)
+	callDCP = ga.Call{Op: "dcp",
+		Wrap: func(idx int, tgo string) string {
+			return fmt.Sprintf("func dcp_%d(dst, src *%s) { deriveDeepCopyP_%d(dst, src) }\n", idx, tgo, idx)
+		},
+		WrapFn: func(idx int) string { return fmt.Sprintf("dcp_%d", idx) }}
+	// deriveDeepCopy(dst, src T) for T itself a slice or map
+	callDCD = ga.Call{Op: "dcd",
+		Wrap: func(idx int, tgo string) string {
+			if !isRefGo(tgo) {
+				return fmt.Sprintf("func dcd_%d() {}\n", idx)
+			}
+			return fmt.Sprintf("func dcd_%d(dst, src %s) { deriveDeepCopyD_%d(dst, src) }\n", idx, tgo, idx)
+		},
+		WrapFn: func(idx int) string { return fmt.Sprintf("dcd_%d", idx) }}
+	callClone = ga.Simple("clone", "deriveClone", "src %T", "%T", "src")
+)
+
+func under(t *ga.Type) *ga.Type {
+	if t.K == ga.KNamed {
+		return t.Elem
+	}
+	return t
+}
+
+func wrapP(label int, v *ga.Val) *ga.Val { return &ga.Val{K: "p", Loc: label, Elems: []*ga.Val{v}} }
+
+func length(v *ga.Val) int {
+	switch v.K {
+	case "sl":
+		return len(v.Elems)
+	case "m":
+		return len(v.KVs)
+	}
+	return 0
+}
+
+// extraMapValues: ga's pool of a map type only uses the first two values of the element pool (for a
+// slice element: nil and the empty slice, which own no memory).  A map whose values own memory is
+// what C05 is about, so the sources of a map type are extended by maps holding the composite
+// values of the element pool.
+func extraMapValues(t *ga.Type, r *hx.Rand) []*ga.Val {
+	env := map[int]*ga.Type{}
+	u := t
+	if t.K == ga.KNamed {
+		env[t.ID] = t
+		u = t.Elem
+	}
+	if u.K != ga.KMap {
+		return nil
+	}
+	g := ga.NewGen(r, 0)
+	ev := g.Pool(u.Elem, env, 2)
+	kv := g.Pool(u.Key, env, 2)
+	if len(ev) < 3 {
+		return nil
+	}
+	a, b := ev[len(ev)-1], ev[2+r.Intn(len(ev)-2)]
+	k0, k1 := kv[0], kv[len(kv)-1] // the zero key and a key with every leaf different: never ==
+	mk := func(kvs ...*ga.Val) *ga.Val {
+		m := &ga.Val{K: "m", Loc: g.Fresh()}
+		for i := 0; i+1 < len(kvs); i += 2 {
+			m.KVs = append(m.KVs, [2]*ga.Val{kvs[i].Clone(g.Fresh), kvs[i+1].Clone(g.Fresh)})
+		}
+		return m
+	}
+	out := []*ga.Val{mk(k0, a), mk(k1, b)}
+	if len(kv) > 1 {
+		out = append(out, mk(k0, b, k1, a))
+	}
+	return out
+}
+
+// flip builds the prior destination that differs from the source v everywhere: non-nil pointers where
+// the source has nil and vice versa, a one-element slice with spare capacity where the source has a
+// nil slice, a slice that is one shorter with two spare elements where it has a non-empty one (so
+// that growing reuses the spare capacity), a populated map for a nil or non-nil map, other leaves.
+func flip(g *ga.Gen, t *ga.Type, env map[int]*ga.Type, v *ga.Val) *ga.Val {
+	last := func(t *ga.Type) *ga.Val {
+		p := g.Pool(t, env, 1)
+		return p[len(p)-1].Clone(g.Fresh)
+	}
+	switch t.K {
+	case ga.KNamed:
+		env2 := map[int]*ga.Type{}
+		for k, x := range env {
+			env2[k] = x
+		}
+		env2[t.ID] = t
+		return flip(g, t.Elem, env2, v)
+	case ga.KRef:
+		return flip(g, env[t.ID].Elem, env, v)
+	case ga.KBasic:
+		p := g.Pool(t, env, 1)
+		if p[0].Sexp() != v.Sexp() {
+			return p[0]
+		}
+		return p[1]
+	case ga.KPtr:
+		if v.K == "nilp" {
+			return &ga.Val{K: "p", Loc: g.Fresh(), Elems: []*ga.Val{last(t.Elem)}}
+		}
+		return &ga.Val{K: "nilp"}
+	case ga.KSlice:
+		out := &ga.Val{K: "sl", Loc: g.Fresh()}
+		switch {
+		case v.K == "nils":
+			out.Elems = []*ga.Val{last(t.Elem)}
+			out.Spare = []*ga.Val{last(t.Elem)}
+		case len(v.Elems) == 0:
+			out.Elems = []*ga.Val{last(t.Elem), last(t.Elem)}
+		default:
+			for _, e := range v.Elems[:len(v.Elems)-1] {
+				out.Elems = append(out.Elems, flip(g, t.Elem, env, e))
+			}
+			out.Spare = []*ga.Val{last(t.Elem), last(t.Elem)}
+		}
+		return out
+	case ga.KArray:
+		out := &ga.Val{K: "a"}
+		for _, e := range v.Elems {
+			out.Elems = append(out.Elems, flip(g, t.Elem, env, e))
+		}
+		return out
+	case ga.KMap:
+		kp := g.Pool(t.Key, env, 1)
+		return &ga.Val{K: "m", Loc: g.Fresh(), KVs: [][2]*ga.Val{{kp[len(kp)-1].Clone(g.Fresh), last(t.Elem)}}}
+	case ga.KStruct:
+		out := &ga.Val{K: "st"}
+		for i, f := range t.Fields {
+			out.Elems = append(out.Elems, flip(g, f.T, env, v.Elems[i]))
+		}
+		return out
+	}
+	panic("flip")
+}
+
+// corpus/C05/cases.txt: "<Go spelling of the type>\t<op> <args>" — regression cases (witnesses of
+// the mutations the check was tested against); they run whenever the type is part of the run (all
+// of them are depth <= 1 shapes, which every tier enumerates).
+func loadCorpus(dir string) map[string][]string {
+	out := map[string][]string{}
+	b, err := os.ReadFile(filepath.Join(dir, "cases.txt"))
+	if err != nil {
+		return out
+	}
+	for _, l := range strings.Split(string(b), "\n") {
+		if l == "" || l[0] == '#' {
+			continue
+		}
+		f := strings.SplitN(l, "\t", 2)
+		if len(f) == 2 {
+			out[f[0]] = append(out[f[0]], f[1])
+		}
+	}
+	return out
+}
+
 func Run(cfg hx.Config) (*hx.Meta, error) {
-	return nil, fmt.Errorf("C05: harness not built yet")
+	corpus := loadCorpus(cfg.Corpus)
+	var corpusRun int64
+	perSrc := 8
+	if cfg.Tier == "thorough" {
+		perSrc = 1 << 30
+	}
+	vr := &ga.ValueRun{
+		Prop: "C05", Calls: []ga.Call{callDCP, callDCD, callClone}, SupObs: "sup-dc", PoolQuick: 10, PoolThorough: 20,
+		Extra: map[string]string{"drv_c05.go": driverSource},
+		Cases: func(idx int, t *ga.Type, vals []*ga.Val, r *hx.Rand, out *strings.Builder) {
+			// labels of the relabelled destinations: disjoint from the pools' labels, below the
+			// driver's base for addresses allocated by the call (1e9); one range per type
+			lab := 100000000 + idx*100000
+			fresh := func() int { lab++; return lab }
+			rk := refKind(t)
+			for _, c := range corpus[t.Go(0)] {
+				f := strings.SplitN(c, " ", 2)
+				fmt.Fprintf(out, "%s %d %s\n", f[0], idx, f[1])
+				atomic.AddInt64(&corpusRun, 1)
+			}
+			vals = append(append([]*ga.Val{}, vals...), extraMapValues(t, r)...)
+			// prior destinations of one source: the zero value, the source's own shape at other
+			// addresses, and other pool values (nil-ness mutations, longer/shorter slices with
+			// spare capacity, populated maps are all pool members)
+			dsts := func(si int) []*ga.Val {
+				var ds []*ga.Val
+				ds = append(ds, vals[0], vals[si])
+				var others []int
+				for j := range vals {
+					if j != 0 && j != si {
+						others = append(others, j)
+					}
+				}
+				hx.Shuffle(r, others)
+				for k, j := range others {
+					if k >= perSrc {
+						break
+					}
+					ds = append(ds, vals[j])
+				}
+				return ds
+			}
+			fg := ga.NewGen(r, 0)
+			for si, s := range vals {
+				fmt.Fprintf(out, "clone %d %s\n", idx, s.Sexp())
+				// the everywhere-different prior destination, in both directions
+				fl := flip(fg, t, map[int]*ga.Type{}, s)
+				fmt.Fprintf(out, "dcp %d %s %s\n", idx, wrapP(fresh(), s).Sexp(), wrapP(fresh(), fl.Clone(fresh)).Sexp())
+				fmt.Fprintf(out, "dcp %d %s %s\n", idx, wrapP(fresh(), fl).Sexp(), wrapP(fresh(), s.Clone(fresh)).Sexp())
+				for _, d := range dsts(si) {
+					// pointer form: arbitrary prior contents of *dst
+					fmt.Fprintf(out, "dcp %d %s %s\n", idx, wrapP(fresh(), s).Sexp(), wrapP(fresh(), d.Clone(fresh)).Sexp())
+				}
+				if si < 2 && !zeroSize(t) {
+					// nil source / nil destination: every emitted statement dereferences them
+					fmt.Fprintf(out, "dcp %d nilp %s\n", idx, wrapP(fresh(), s.Clone(fresh)).Sexp())
+					fmt.Fprintf(out, "dcp %d %s nilp\n", idx, wrapP(fresh(), s).Sexp())
+				}
+				if rk == "" {
+					continue
+				}
+				for _, d := range vals {
+					// direct form: the property's destinations are a slice of equal length / an empty
+					// map / a non-nil pointer; a band of others runs for the correspondence only
+					inProp := false
+					switch rk {
+					case "sl":
+						inProp = (s.K == "nils") == (d.K == "nils") && length(s) == length(d)
+					case "m":
+						inProp = (s.K == "nilm") == (d.K == "nilm") && length(d) == 0
+					}
+					if !inProp && rk == "sl" && emptyArray(under(t).Elem) {
+						continue
+					}
+					if inProp || r.Intn(4) == 0 {
+						fmt.Fprintf(out, "dcd %d %s %s\n", idx, s.Sexp(), d.Clone(fresh).Sexp())
+					}
+				}
+			}
+		},
+	}
+	meta, err := vr.Run(cfg)
+	if meta != nil {
+		n := 0
+		for _, cs := range corpus {
+			n += len(cs)
+		}
+		meta.Count(fmt.Sprintf("corpus-cases=%d run=%d", n, corpusRun))
+	}
+	return meta, err
 }
